@@ -782,6 +782,16 @@ def raising_subscriber_sweep(res: Result, owner: str = "C12", only: str | None =
     return n
 
 
+def _safe_job(packed: tuple[str, Any]) -> dict[str, Any]:
+    """A job that dies inside the library (an exception the harness did not expect there) must not take the other jobs' verdicts with
+    it: it is reported, and fails the run as a harness error only if no job found a violation."""
+    name, args = packed
+    try:
+        return globals()[name](args)  # type: ignore[no-any-return]
+    except Exception as e:  # noqa: BLE001
+        return {"evals": 0, "viol": [], "dispatches": 0, "crash": f"{name}{args!r}: {type(e).__name__}: {str(e)[:200]}"}
+
+
 def run(tier: str, seed: int) -> Result:
     res = Result("C12", "model_checking")
     q = tier == "quick"
@@ -819,14 +829,18 @@ def run(tier: str, seed: int) -> Result:
                 if rq != "DR":
                     jobs_c2.append((noise, login, (rq, rq) + tail + (rq,), True))
     with ctx.Pool(nproc) as pool:
-        ra = pool.map_async(sweep_job, jobs_a, chunksize=1)
-        rb = pool.map_async(hist_job, jobs_b, chunksize=1)
-        rb2 = pool.map_async(fresh_hist_job, jobs_b2, chunksize=1)
-        rc = pool.map_async(peer_job, jobs_c, chunksize=16)
-        rc2 = pool.map_async(peer_connect_job, jobs_c2, chunksize=4)
-        rc3 = pool.map_async(bad_payload_states_job, [False, True], chunksize=1)
-        rc4 = pool.map_async(keepalive_states_job, [False, True], chunksize=1)
+        def safe(name: str, jobs: list[Any]) -> list[Any]:
+            return [(name, j) for j in jobs]
+
+        ra = pool.map_async(_safe_job, safe("sweep_job", jobs_a), chunksize=1)
+        rb = pool.map_async(_safe_job, safe("hist_job", jobs_b), chunksize=1)
+        rb2 = pool.map_async(_safe_job, safe("fresh_hist_job", jobs_b2), chunksize=1)
+        rc = pool.map_async(_safe_job, safe("peer_job", jobs_c), chunksize=16)
+        rc2 = pool.map_async(_safe_job, safe("peer_connect_job", jobs_c2), chunksize=4)
+        rc3 = pool.map_async(_safe_job, safe("bad_payload_states_job", [False, True]), chunksize=1)
+        rc4 = pool.map_async(_safe_job, safe("keepalive_states_job", [False, True]), chunksize=1)
         outs_a, outs_b, outs_c = ra.get(), rb.get() + rb2.get(), rc.get() + rc2.get() + rc3.get() + rc4.get()
+    crashed = [o["crash"] for o in outs_a + outs_b + outs_c if o.get("crash")]
     # large varints (plaintext only: the Noise type field is 16 bit)
     raising_runs = raising_subscriber_sweep(res)
     big_evals = 0
@@ -864,9 +878,11 @@ def run(tier: str, seed: int) -> Result:
     evals_a = sum(o["evals"] for o in outs_a) + big_evals
     evals_b = sum(o["evals"] for o in outs_b)
     evals_c = sum(o["evals"] for o in outs_c)
-    defined_ok = sum(o["defined_ok"] for o in outs_a)
-    undefined_ok = sum(o["undefined_ok"] for o in outs_a)
-    bad_closed = sum(o["bad_payload_closed"] for o in outs_a)
+    defined_ok = sum(o.get("defined_ok", 0) for o in outs_a)
+    undefined_ok = sum(o.get("undefined_ok", 0) for o in outs_a)
+    bad_closed = sum(o.get("bad_payload_closed", 0) for o in outs_a)
+    if crashed and not res.violations:
+        raise HarnessError(f"{len(crashed)} job(s) died: {crashed[0]}")
     if not res.violations and (defined_ok < 400 or undefined_ok < 200000 or bad_closed < 100 or evals_b < 10000):
         raise HarnessError(f"vacuous: defined_ok={defined_ok} undefined_ok={undefined_ok} bad_closed={bad_closed} hist={evals_b}")
     res.coverage = {
